@@ -3,6 +3,7 @@ import itertools
 import random
 
 PROPERTY = 'C20'
+THOROUGH_SEEDS = 1      # the thorough enumeration of this driver is already minutes long
 LEVEL = 'proof'
 DEDUCTIVE = ['contracts.c20_array']
 BUDGET_S = {'quick': 30.0, 'thorough': 90.0}
